@@ -141,8 +141,87 @@ func (c *Ctx) c18Render(scratch string, cmdline func(target string) []string, na
 	return nb
 }
 
+// c18Dresses: what real journal files carry around their text — marks, encodings, line ends and padding that an editor,
+// an export or a copy through another system leaves, and that a rewriting command may be tempted to "clean" in a pass of
+// its own before (or after) the one committed write.  Nothing is assumed about what the parser makes of them: the
+// complete new contents are whatever the fault-free command leaves (the old file when it rejects the journal).
+var c18Dresses = []string{"bom8", "bom8-twice", "bom16le-mark", "bom16le", "bom16be", "zero-width", "crlf", "crlf-first", "cr-only", "nul-lead", "nul-inside",
+	"trailing-ws", "no-newline-ws", "lead-blank", "lead-comment", "lead-ws-lines", "trail-blank"}
+
+func c18Dress(r *RNG, s, dress string) string {
+	utf16 := func(s string, le bool) string {
+		var b strings.Builder
+		for _, ru := range s {
+			if ru > 0xffff {
+				ru = '?'
+			}
+			if le {
+				b.WriteByte(byte(ru))
+				b.WriteByte(byte(ru >> 8))
+			} else {
+				b.WriteByte(byte(ru >> 8))
+				b.WriteByte(byte(ru))
+			}
+		}
+		return b.String()
+	}
+	switch dress {
+	case "bom8":
+		return "\xef\xbb\xbf" + s
+	case "bom8-twice":
+		return "\xef\xbb\xbf\xef\xbb\xbf" + s
+	case "bom16le-mark":
+		return "\xff\xfe" + s
+	case "bom16le":
+		return "\xff\xfe" + utf16(s, true)
+	case "bom16be":
+		return "\xfe\xff" + utf16(s, false)
+	case "zero-width":
+		return Pick(r, []string{"\u200b", "\u2060", "\u00a0", "\u200e"}) + s
+	case "crlf":
+		return strings.ReplaceAll(s, "\n", "\r\n")
+	case "crlf-first":
+		return strings.Replace(s, "\n", "\r\n", 1)
+	case "cr-only":
+		return strings.ReplaceAll(s, "\n", "\r")
+	case "nul-lead":
+		return strings.Repeat("\x00", r.Range(1, 4)) + s
+	case "nul-inside":
+		k := r.Intn(len(s) + 1)
+		return s[:k] + "\x00" + s[k:]
+	case "trailing-ws":
+		lines := strings.Split(s, "\n")
+		for i := range lines {
+			if r.Chance(1, 2) {
+				lines[i] += Pick(r, []string{" ", "   ", "\t", " \t "})
+			}
+		}
+		return strings.Join(lines, "\n")
+	case "no-newline-ws":
+		return strings.TrimRight(s, "\n") + Pick(r, []string{" ", "  \t", "\t"})
+	case "lead-blank":
+		return strings.Repeat("\n", r.Range(1, 5)) + s
+	case "lead-comment":
+		var b strings.Builder
+		for k := r.Range(1, 6); k > 0; k-- {
+			b.WriteString(Pick(r, []string{"# -*- mode: knut -*-\n", "* heading\n", "# exported 2024-01-01\n", "\n", "#\n", "// note\n"}))
+		}
+		return b.String() + "\n" + s
+	case "lead-ws-lines":
+		return Pick(r, []string{"  \n", "\t\n", " \n \n", "   "}) + s
+	case "trail-blank":
+		return s + strings.Repeat("\n", r.Range(1, 6)) + Pick(r, []string{"", "  ", "# end"})
+	}
+	return s
+}
+
 func (c *Ctx) c18GenFile(r *RNG, scratch, name, kind string) c18File {
 	text := c18GenText(r, kind)
+	// a fifth of the journals of every stream is dressed (see c18Dresses); stream "dress" goes through all of them
+	if dr := c.Rng("dressed", int(r.Intn(1<<30))); kind != "formatted" && kind != "empty" && kind != "huge" && dr.Chance(1, 5) {
+		d := Pick(dr, c18Dresses)
+		text, kind = c18Dress(dr, text, d), kind+"+"+d
+	}
 	f := c18File{Name: name, Old: []byte(text), Mode: Pick(r, []os.FileMode{0o644, 0o644, 0o600, 0o664, 0o640}), Kind: kind}
 	formatCmd := func(t string) []string { return []string{"format", t} }
 	if kind == "formatted" {
@@ -645,6 +724,152 @@ func (c *Ctx) c18InjectStream() {
 					continue
 				}
 				run("inject", []string{"-e", "trace=" + sys, "-e", fmt.Sprintf("inject=%s:signal=KILL:when=%d", sys, n)}, nil, "kill-"+sys, true)
+			}
+		}
+	}
+}
+
+// ---------------------------------------------------------------- dress stream
+//
+// Every dress of c18Dresses on a journal that is otherwise valid and on one with a syntax error later in the file, for
+// `format` (and `infer -i` on a part of them): without a fault, under size limits around the old length, the old length
+// minus a few bytes (what a pre-pass that strips a mark would write) and the new length, with the 1st / 2nd / 3rd write,
+// fsync, renameat failing, and SIGKILL at the 1st / 2nd renameat and fsync.  "New" is what the fault-free run of the same
+// command leaves; when it fails the file must stay as it was — after ANY outcome.  Case index = file*1000 + run.
+func (c *Ctx) c18DressStream() {
+	scratch := filepath.Join(c.WorkDir, "render")
+	dir := filepath.Join(c.WorkDir, "dress")
+	bt := c.NewBatch()
+	defer bt.Flush()
+	bodies := []string{"plain", "parse-error"}
+	if c.Thorough() {
+		bodies = []string{"plain", "parse-error", "big", "no-final-newline", "plain", "parse-error"}
+	}
+	fi := -1
+	for _, body := range bodies {
+		for di, dress := range c18Dresses {
+			for _, cmd := range []string{"format", "infer"} {
+				if cmd == "infer" && !c.Thorough() && di%4 != 0 {
+					continue
+				}
+				fi++
+				if c.Replay && c.OnlyIndex/1000 != fi {
+					continue
+				}
+				r := c.Rng("dress", fi)
+				var f c18File
+				var argv []string
+				files := map[string][]byte{}
+				modes := map[string]os.FileMode{}
+				others := map[string]string{}
+				extra := map[string][]byte{}
+				name := Pick(r, []string{"journal.knut", "ledger.knut", "2024.knut"})
+				if cmd == "infer" {
+					f = c18File{Name: name, Old: []byte(c18Dress(r, c18InferTarget(r, body), dress)), Mode: Pick(r, []os.FileMode{0o644, 0o600}), Kind: "infer-" + body + "+" + dress}
+					argv = []string{"infer", "-i", "-t", "training.knut", name}
+					extra["training.knut"] = []byte(c18Training)
+					files["training.knut"], modes["training.knut"] = []byte(c18Training), 0o644
+					others["training.knut"] = fieldOf([]byte(c18Training), 0o644)
+				} else {
+					f = c18File{Name: name, Old: []byte(c18Dress(r, c18GenText(r, body), dress)), Mode: Pick(r, []os.FileMode{0o644, 0o600, 0o664}), Kind: body + "+" + dress}
+					argv = []string{"format", name}
+				}
+				av := argv
+				f.New = c.c18Render(scratch, func(t string) []string { return av }, f.Name, f.Old, extra)
+				files[f.Name], modes[f.Name] = f.Old, f.Mode
+				originals := []string{f.Name, "training.knut"}
+				// limits: none that cuts, and the neighbourhoods of the old length (down to a few bytes below) and of the new one
+				limSet := map[int]bool{1 << 30: true, 0: true, len(f.Old): true, len(f.Old) - 1: true, len(f.Old) - 2: true, len(f.Old) - 3: true, len(f.Old) - 4: true,
+					len(f.Old) - r.Range(1, 8): true, len(f.Old) + r.Range(1, 40): true, r.Intn(len(f.Old) + 1): true}
+				if f.New != nil {
+					limSet[len(f.New)-1], limSet[len(f.New)] = true, true
+					limSet[len(f.New)-r.Range(1, 8)] = true
+					limSet[(len(f.Old)+len(f.New))/2] = true
+				}
+				if c.Thorough() {
+					for k := len(f.Old) - 12; k <= len(f.Old)+2; k++ {
+						limSet[k] = true
+					}
+					for k := len(f.New) - 12; f.New != nil && k <= len(f.New)+1; k++ {
+						limSet[k] = true
+					}
+				}
+				var limits []int
+				for k := range limSet {
+					if k >= 0 {
+						limits = append(limits, k)
+					}
+				}
+				sort.Ints(limits)
+				run := 0
+				for _, k := range limits {
+					i := fi*1000 + run
+					run++
+					if !c.Want("dress", i) {
+						continue
+					}
+					lim := k
+					if k == 1<<30 {
+						lim = -1
+					}
+					pr := c.c18Exec(c18Run{Dir: dir, Files: files, Modes: modes, Argv: argv, Limit: lim})
+					obs := c18Observe(dir, f.Name, originals)
+					in := map[string]any{"argv": argv, "file_kind": f.Kind, "mode": fmt.Sprintf("%o", f.Mode), "RLIMIT_FSIZE": lim, "old": string(f.Old), "old_hex_head": hex.EncodeToString(f.Old[:min(8, len(f.Old))]),
+						"old_len": len(f.Old), "new_len": len(f.New), "fault_free_run_succeeds": f.New != nil}
+					c.c18ByMonitor("dress", i, in)
+					c.Class(fmt.Sprintf("dress/%s/%s/limit/exit%v", cmd, f.Kind, pr.Exit == 0))
+					c.c18Check(bt, "dress", i, in, f, f.Mode, pr, obs, lim, [][2]string{{"-", "0"}}, others, originals)
+				}
+				type inj struct {
+					sys   string
+					n     int
+					kill  bool
+					cands [][2]string
+				}
+				injs := []inj{{"write", 1, false, [][2]string{{"write", "0"}, {"-", "0"}}}, {"write", 2, false, [][2]string{{"write", "0"}, {"-", "0"}}},
+					{"fsync", 1, false, [][2]string{{"fsync", "0"}, {"-", "0"}}}, {"fsync", 2, false, [][2]string{{"fsync", "0"}, {"-", "0"}}},
+					{"renameat", 1, false, [][2]string{{"rename", "0"}, {"-", "0"}}}, {"renameat", 2, false, [][2]string{{"rename", "0"}, {"-", "0"}}},
+					{"renameat", 2, true, nil}, {"fsync", 2, true, nil}, {"renameat", 1, true, nil}}
+				if c.Thorough() {
+					injs = append(injs, inj{"write", 3, false, [][2]string{{"write", "0"}, {"-", "0"}}}, inj{"fchmodat", 1, false, [][2]string{{"chmod", "0"}, {"-", "0"}}},
+						inj{"fchmodat", 2, false, [][2]string{{"chmod", "0"}, {"-", "0"}}}, inj{"write", 2, true, nil}, inj{"fchmodat", 2, true, nil})
+				} else {
+					// quick tier: three of them per file
+					for a := len(injs) - 1; a > 0; a-- {
+						b := r.Intn(a + 1)
+						injs[a], injs[b] = injs[b], injs[a]
+					}
+					injs = injs[:3]
+				}
+				for _, ij := range injs {
+					i := fi*1000 + run
+					run++
+					if !c.Want("dress", i) {
+						continue
+					}
+					what := fmt.Sprintf("inject=%s:error=%s:when=%d", ij.sys, Pick(r, []string{"EIO", "ENOSPC", "EDQUOT"}), ij.n)
+					if ij.kill {
+						what = fmt.Sprintf("inject=%s:signal=KILL:when=%d", ij.sys, ij.n)
+					}
+					strace := []string{"-e", "trace=" + ij.sys, "-e", what}
+					pr := c.c18Exec(c18Run{Dir: dir, Files: files, Modes: modes, Argv: argv, Limit: -1, Strace: strace})
+					obs := c18Observe(dir, f.Name, originals)
+					in := map[string]any{"argv": argv, "file_kind": f.Kind, "mode": fmt.Sprintf("%o", f.Mode), "strace": strace, "old": string(f.Old), "old_hex_head": hex.EncodeToString(f.Old[:min(8, len(f.Old))]),
+						"old_len": len(f.Old), "new_len": len(f.New), "fault_free_run_succeeds": f.New != nil}
+					c.c18ByMonitor("dress", i, in)
+					c.Class(fmt.Sprintf("dress/%s/%s/%s%v/exit%v", cmd, f.Kind, ij.sys, ij.kill, pr.Exit == 0))
+					if !ij.kill {
+						c.c18Check(bt, "dress", i, in, f, f.Mode, pr, obs, -1, ij.cands, others, originals)
+						continue
+					}
+					c.Evals++
+					old, nw := fieldOf(f.Old, f.Mode), newField(f.New)
+					tgt := obs.Target
+					bt.Add(func(mon string) {
+						c.Monitor("dress", i, "C18_invariant after a crash (allOrNothing, status unknown)", in, mon == "ok",
+							fmt.Sprintf("%s: old=%s new=%s observed=%s", mon, clip(old), clip(nw), clip(tgt)))
+					}, "c18mon", old, nw, tgt, "-")
+				}
 			}
 		}
 	}
@@ -1975,7 +2200,7 @@ func runC18(c *Ctx) {
 	streams := []struct {
 		name string
 		f    func()
-	}{{"facts", c.c18Facts}, {"limit", c.c18Limit}, {"inject", c.c18InjectStream}, {"perm", c.c18Perm}, {"permlimit", c.c18PermLimit}, {"multi", c.c18Multi}, {"siblings", c.c18Siblings}, {"sizes", c.c18Sizes}, {"flags", c.c18Flags}}
+	}{{"facts", c.c18Facts}, {"limit", c.c18Limit}, {"inject", c.c18InjectStream}, {"perm", c.c18Perm}, {"permlimit", c.c18PermLimit}, {"multi", c.c18Multi}, {"siblings", c.c18Siblings}, {"sizes", c.c18Sizes}, {"flags", c.c18Flags}, {"dress", c.c18DressStream}}
 	for _, s := range streams {
 		if c.Replay && c.OnlyStr != s.name && !(s.name == "limit" && c.OnlyStr == "limit-directed") && !(s.name == "multi" && c.OnlyStr == "multi-directed") {
 			continue
